@@ -247,7 +247,13 @@ pub fn gen_ws(ch: &mut Chooser, cx: &mut CaseCtx, o: &WsGenOpts) -> WsCase {
         }
         d.garbage = ch.chance(1, 4);
         d.bare_empty_ctx = false;
-        let name = format!("{:02}-{}.patch", pi + 1, ch.pick(&["fix", "feature", "cleanup", "wip"]));
+        // a patch whose name starts with '#': only an entry with leading white space can name it in the series
+        // (a '#' in the first column starts a comment); .pc/applied-patches holds the bare name
+        let hash_name = ch.chance(1, 20);
+        let name = format!("{}{:02}-{}.patch", if hash_name { "#" } else { "" }, pi + 1, ch.pick(&["fix", "feature", "cleanup", "wip"]));
+        if hash_name {
+            feat.push("patch-name-starts-with-hash".into());
+        }
         let nops = ch.range(1, 4);
         let mut ops: Vec<FileOp> = Vec::new();
         let mut specs: Vec<FilePatchSpec> = Vec::new();
@@ -860,7 +866,7 @@ pub fn gen_ws(ch: &mut Chooser, cx: &mut CaseCtx, o: &WsGenOpts) -> WsCase {
         }
         let text = render_patch(&specs);
         let mut line = String::new();
-        if ch.chance(1, 10) {
+        if hash_name || ch.chance(1, 10) {
             // leading white space before the patch name is ignored
             line.push_str(*ch.pick(&[" ", "  ", "\t"]));
             feat.push("series-leading-whitespace".into());
